@@ -15,6 +15,8 @@
                 | (gsub31 COV ((gid ...) ...)) | (gpos11 COV VR) | (gpos12 COV (VR ...))
                 | (gsub41 COV (((out in ...) ...) ...)) | (gpos21 ((left right VR VR) ...))
        COV = ((gid idx runlen) ...)
+     gdef-enc GC MAC MGS          -> (ok xBYTES) | panic     GC, MAC = nil | ((gid class len) ...)
+     gdef-read xBYTES             -> (ok GC MAC MGS) | err   MGS = nil | (((gid len) ...) ...)
      fl-enc ((xTAG (lookup ...)) ...) -> (ok xBYTES) | panic
      fl-read xBYTES pos           -> (ok ((xTAG (lookup ...)) ...)) | err *)
 
@@ -139,6 +141,25 @@ let sx_of_groups gs =
   L (List.concat_map (fun (l, its) ->
        List.map (fun (r, (v1, v2)) -> L [an l; an r; sx_of_vr v1; sx_of_vr v2]) its) gs)
 
+(* GDEF: GC, MAC = nil | ((gid class len) ...); MGS = nil | (((gid len) ...) ...) *)
+let opt_cd_of_sx x = match x with A "nil" -> None | _ -> Some (pairs_of_cruns x)
+let sx_of_opt_cd o = match o with
+  | None -> A "nil"
+  | Some l -> cruns_of_pairs (List.map (fun (g, c) -> (int_of_n g, int_of_n c)) l)
+let set_of_sx x = List.concat_map (fun r -> match r with
+  | L [g; n] -> let g = sx_int g and n = sx_int n in List.init n (fun k -> n_of_int (g + k))
+  | _ -> failwith "bad set run") (lst x)
+let sx_of_set (s : n list) : sx =
+  let rec go l cur acc = match l, cur with
+    | [], None -> List.rev acc
+    | [], Some (g, n) -> List.rev (L [ai g; ai n] :: acc)
+    | g' :: tl, None -> go tl (Some (g', 1)) acc
+    | g' :: tl, Some (g, n) -> if g' = g + n then go tl (Some (g, n + 1)) acc
+                               else go tl (Some (g', 1)) (L [ai g; ai n] :: acc) in
+  L (go (List.map int_of_n s) None [])
+let opt_sets_of_sx x = match x with A "nil" -> None | _ -> Some (List.map set_of_sx (lst x))
+let sx_of_opt_sets o = match o with None -> A "nil" | Some ss -> L (List.map sx_of_set ss)
+
 let enc_obs (b : n list outcome) (n : n outcome) : sx =
   match b, n with
   | Ok b, Ok n -> L [A "ok"; A (hex_of_bytes b); an n]
@@ -215,4 +236,10 @@ let () = main_loop (fun c ->
   | [A "fl-read"; data; pos] ->
     outc (fun fl -> L [A "ok"; L (List.map (fun (t, ls) -> L [A (hex_of_bytes t); sx_of_ns ls]) fl)])
       (m_fl_read (sx_bytes data) (sx_n pos))
+  | [A "gdef-enc"; gc; mac; mgs] ->
+    outc (fun b -> L [A "ok"; A (hex_of_bytes b)])
+      (m_gdef_encode { g_gc = opt_cd_of_sx gc; g_mac = opt_cd_of_sx mac; g_sets = opt_sets_of_sx mgs })
+  | [A "gdef-read"; data] ->
+    outc (fun t -> L [A "ok"; sx_of_opt_cd t.g_gc; sx_of_opt_cd t.g_mac; sx_of_opt_sets t.g_sets])
+      (m_gdef_read (sx_bytes data))
   | _ -> failwith "bad case")
